@@ -40,6 +40,13 @@ def approx_inputs(rng, tier, wd):
             inputs.append((base, 1))
             for _ in range(3 if tier == 'quick' else 12):
                 inputs.append((gens.permuted(rng, base), 1))
+    # the same idea with FRACTIONAL weights closer than 1 to each other (den 1000): a scan order that is not by
+    # non-decreasing weight drops light edges behind the heavy one
+    for n_, hv, lt in ((4, 990, 1), (6, 990, 1), (8, 750, 10), (12, 750, 10), (6, 500, 300)):
+        base = gens.theta(n_, hv, lt)
+        inputs.append((base, 1000))
+        for _ in range(2 if tier == 'quick' else 8):
+            inputs.append((gens.permuted(rng, base), 1000))
     for g in gens.random_graphs(rng, 60 if tier == 'quick' else 1500, 7, 11, 18, [[1, 1, 1, 2, 2, 3]]):
         inputs.append((gens.heavy_spiked(rng, g, rng.randint(1, 2), rng.choice([200, 1000])), 1))
     nr = 250 if tier == 'quick' else 4000
